@@ -66,8 +66,11 @@ CONSTANTS NSubs,        \* subscriber identities 1..NSubs (an identity can be re
           Styles,       \* subset of {"split","coro","loop","block","poll"}: how next() is called
           MaxPub,       \* total number of values published
           MaxBatch,     \* largest batch of one publish call
+          MinBatch,     \* smallest batch: 1, or 0 = publish(begin,end) with an empty range is among the calls
+          PubClosed,    \* TRUE: publish is also called on a closed publisher (the values are appended, nobody can be parked)
+          MaxAhead,     \* subscribe-at-position may name a position up to MaxAhead past the newest published one
           MaxJoin,      \* bound on subscribe events
-          AtPos,        \* positions subscribe-at-position may use (those <= pos-1)
+          AtPos,        \* positions subscribe-at-position may use (those <= pos-1+MaxAhead)
           MaxKick,      \* bound on kick events
           Serial,       \* TRUE: the wake-ups of one publisher call directly follow its critical section
           Founders,     \* identities that may subscribe at the publisher (the others come into being as copies only)
@@ -219,8 +222,16 @@ Join(s, p, m, st, ow) ==
 (* subscriber(pub, type), publisher.h:402, 184-187 *)
 SubscribeRecent(s, m) == pubAlive /\ s \in Founders /\ Join(s, pos - 1, m, pos - 1, FALSE)
 
-(* subscriber(pub, pos, type), publisher.h:409; oow: the value after p is no longer retained *)
-SubscribeAt(s, p, m) == pubAlive /\ s \in Founders /\ p <= pos - 1 /\ Join(s, p, m, p, p + 1 < pos - Len(q))
+(* subscriber(pub, pos, type), publisher.h:409; oow: the value after p is no longer retained.
+   p >= pos (MaxAhead > 0): a position that is not published yet -- the subscriber starts with value p+1 once the
+   stream has got there; until then push_lk's `_pos - x._pos` wraps around (NeedLen: Huge), i.e. nothing but the
+   maximum trims the window *)
+SubscribeAt(s, p, m) == pubAlive /\ s \in Founders /\ p <= pos - 1 + MaxAhead /\ Join(s, p, m, p, p + 1 < pos - Len(q))
+
+(* a subscriber that stands at a position not published yet does not call next() before the stream has reached it
+   (its registration says "caught up and more", which no branch of advance_lk is written for); after close / kick
+   the call is the ordinary end of stream *)
+NotAhead(s) == MaxAhead = 0 \/ closed \/ Slot(s).kicked \/ Slot(s).pos < pos
 
 (* subscriber(const subscriber &), publisher.h:421, 188-191 *)
 Woken(o) == pc[o] \in ({"fetch"} \cup WFetchPc) /\ wakes[o] = 1     \* resumed, value not fetched yet
@@ -278,7 +289,7 @@ Leave(s) ==
 -----------------------------------------------------------------------------
 (* next(), one action per critical section *)
 Ready(s) ==
-    /\ "split" \in Styles /\ pc[s] = "idle" /\ CanAct
+    /\ "split" \in Styles /\ pc[s] = "idle" /\ CanAct /\ NotAhead(s)
     /\ LET r == AdvanceLk(Slot(s), mode[s]) IN
          /\ regs' = [regs EXCEPT ![hnd[s] + 1] = r.l]
          /\ pc' = [pc EXCEPT ![s] = IF r.ok THEN "fetch" ELSE "nr"]
@@ -299,9 +310,12 @@ Fetch(s) ==
 
 (* next_ready(), publisher.h:490-494: await_ready(); if ready await_resume().  The caller cannot
    tell "not ready" from a consumed end of stream (documented).  The guard bounds repeated polls
-   past the end of a closed stream (each one increments the position once more). *)
+   past the end of a closed stream (each one increments the position once more).  Such a poll leaves the
+   position past the end without telling the caller: where the publisher goes on publishing after close()
+   (PubClosed) a closed stream is not polled. *)
 Poll(s) ==
-    /\ "poll" \in Styles /\ pc[s] = "idle" /\ CanAct /\ Slot(s).pos <= pos
+    /\ "poll" \in Styles /\ pc[s] = "idle" /\ CanAct /\ Slot(s).pos <= pos /\ NotAhead(s)
+    /\ PubClosed => ~closed
     /\ LET r == AdvanceLk(Slot(s), mode[s])
            g == GetValueLk(r.l, mode[s])
        IN IF r.ok /\ ~g.eos
@@ -338,7 +352,7 @@ Drained(s, d) ==
    publisher.h:442-448 + awaiter.h:305-325), run by one thread without interference up to the
    point where it parks *)
 NextWhole(s, style) ==
-    /\ style \in Styles /\ pc[s] = "idle" /\ CanAct
+    /\ style \in Styles /\ pc[s] = "idle" /\ CanAct /\ NotAhead(s)
     /\ (style = "block" /\ ~FixBlocking) => recv[s] # <<>>     \* else value() of an empty optional: UB
     /\ LET r == AdvanceLk(Slot(s), mode[s])
            a == AdvSuspendLk(r.l, s)
@@ -399,14 +413,20 @@ PushLkCore(np, q1) ==
 
 PushLk(np, q1) == PushLkCore(np, q1) /\ wakeq' = WakeList
 
-(* publish(x) / publish(begin,end), publisher.h:109-128: n values pos..pos+n-1, newest in front *)
+(* publish(x) / publish(begin,end), publisher.h:109-128: n values pos..pos+n-1, newest in front.
+   n = 0, publisher.h:119-127: publish(begin,end) with an empty range inserts nothing and does not get as far as
+   push_lk: the position, the window and the registrations stay as they are and NOBODY IS WOKEN (a parked
+   subscriber woken here would find nothing to read and report an end of stream that has no reason).
+   closed (PubClosed): the publisher object accepts values after close() as before; nobody is parked on a closed
+   queue (CloseWakesAll), so there is nobody to wake; who has not seen its end of stream yet reads on. *)
 PushBody(n) ==
-    /\ pubAlive /\ ~closed
+    /\ pubAlive /\ (closed => PubClosed)
     /\ pos - 1 + n <= MaxPub
-    /\ PushLkCore(pos + n, [i \in 1..n |-> pos + n - i] \o q)
+    /\ IF n = 0 THEN UNCHANGED <<pos, q, regs>>
+                ELSE PushLkCore(pos + n, [i \in 1..n |-> pos + n - i] \o q)
     /\ UNCHANGED <<nextFree, closed, pubAlive, pc, hnd, mode, recv, res, wakes, start, oow, wasKicked, left, plan, njoin, nkick>>
 
-PushCS(n) == PubFree /\ PushBody(n) /\ wakeq' = WakeList
+PushCS(n) == PubFree /\ PushBody(n) /\ wakeq' = IF n = 0 THEN wakeq ELSE WakeList
 
 (* publisher::close() / ~publisher(), publisher.h:130-135, 351-359 *)
 CloseBody(how) ==
@@ -450,7 +470,7 @@ Next == \/ \E s \in Subs, m \in Modes : SubscribeRecent(s, m)
         \/ \E s \in Subs, st \in {"coro", "loop", "block"} : NextWhole(s, st)
         \/ \E s \in Subs : Wake(s)
         \/ \E s \in Subs : WFetch(s)
-        \/ \E n \in 1..MaxBatch : PushCS(n)
+        \/ \E n \in MinBatch..MaxBatch : PushCS(n)
         \/ \E how \in {"close", "destroy"} : Close(how)
         \/ \E s \in Subs, via \in {"pub", "me"} : KickCS(s, via)
         \/ KickGone
@@ -510,18 +530,24 @@ BehindSkipsOnlyDropped ==
                            => LET v == recv'[s][Len(recv'[s])] IN
                               \A w \in (LastSeen(s) + 1)..(v - 1) : w < pos - Len(q)]_vars
 
-(* first end of stream only for a reason *)
-EOSOnlyWhen ==
-    \A s \in Subs : pc[s] = "eos" =>
-        \/ wasKicked[s]
-        \/ closed /\ LastSeen(s) = pos - 1
-        \/ mode[s] = "all" /\ (pos - 1 - LastSeen(s) > MaxLen \/ oow[s])
+(* first end of stream only for a reason (LastSeen > pos - 1: joined at a position not published yet) *)
+EOSReason(s) ==
+    \/ wasKicked[s]
+    \/ closed /\ LastSeen(s) >= pos - 1
+    \/ mode[s] = "all" /\ (pos - 1 - LastSeen(s) > MaxLen \/ oow[s])
+
+EOSOnlyWhen == \A s \in Subs : pc[s] = "eos" => EOSReason(s)
+
+(* the same at the step that reports it: the form for histories that publish on a closed publisher, where
+   "closed and drained" does not stay true of a subscriber that has seen its end of stream *)
+EOSOnlyWhenStep ==
+    [][\A s \in Subs : (pc[s] # "eos" /\ pc'[s] = "eos") => EOSReason(s)']_vars
 
 (* next_ready() == false: nothing to read (or a kicked subscriber, or end of stream -- documented) *)
 NotReadyOnlyWhen ==
     [][\A s \in Subs : (Poll(s) /\ res'[s] = "notready") =>
           \/ wasKicked[s]
-          \/ LastSeen(s) = pos - 1
+          \/ LastSeen(s) >= pos - 1
           \/ mode[s] = "all" /\ (pos - 1 - LastSeen(s) > MaxLen \/ oow[s])]_vars
 
 (* nobody stays parked after close / destroy / its own kick; a parked subscriber is registered *)
